@@ -102,6 +102,8 @@ def create_clone(expression: exp.Expression) -> exp.Expression:
         return exp.Create(
             this=expression.this,
             kind="TABLE",
+            replace=expression.args.get("replace"),
+            exists=expression.args.get("exists"),
             expression=exp.Select(
                 expressions=[
                     exp.Star(),
